@@ -12,24 +12,25 @@ section
 variable {π β : Type} {h : Hist π}
 
 /-- why the eligible commit `e` is not a build, relative to the builds `bs` of the current branch -/
-def SkipRec (h : Hist π) (pl : Plug π β) (rcs : List RC) (isB : RB β → Prop) (e : Nat) : Prop :=
+def SkipRec (h : Hist π) (pl : Plug π β) (L : List Nat → Prop) (rcs : List RC) (isB : RB β → Prop) (e : Nat) : Prop :=
   h.isMatch e = false ∧
-  ((pl.rel = false ∧ ∀ bq, isB bq → ∀ rcq, rcs[bq.iid]? = some rcq → rcq.commit ≠ e → ¬ Anc h rcq.commit e) ∨
-   ∃ (cm : Commit π) (pbs : List (RB β)) (bumps : β), h.commits[e]? = some cm ∧ pbs.length ≤ 1 ∧
+  ((L [] ∧ ∀ bq, isB bq → ∀ rcq, rcs[bq.iid]? = some rcq → rcq.commit ≠ e → ¬ Anc h rcq.commit e) ∨
+   ∃ (cm : Commit π) (pbs : List (RB β)) (bumps : β) (rel : List Nat), L rel ∧ h.commits[e]? = some cm ∧
+    pbs.length ≤ 1 ∧
     (∀ pb ∈ pbs, isB pb ∧ ∃ rcp, rcs[pb.iid]? = some rcp ∧ rcp.commit ≠ e ∧ Anc h rcp.commit e) ∧
     (∀ bq, isB bq → ∀ rcq, rcs[bq.iid]? = some rcq → rcq.commit ≠ e → Anc h rcq.commit e →
       ∃ pb ∈ pbs, ∃ rcp, rcs[pb.iid]? = some rcp ∧ Anc h rcq.commit rcp.commit) ∧
-    pl.mkBumps cm.pins (pbs.map (·.bumps)) = .ok bumps ∧ pl.nonTrivial bumps = false)
+    pl.mkBumps rel cm.pins (pbs.map (·.bumps)) = .ok bumps ∧ pl.nonTrivial bumps = false)
 
-def SkipInv (h : Hist π) (pl : Plug π β) (rp0 : Repo β) (head : Nat) (st : St β) : Prop :=
+def SkipInv (h : Hist π) (pl : Plug π β) (L : List Nat → Prop) (rp0 : Repo β) (head : Nat) (st : St β) : Prop :=
   ∀ e cl, classify st.rp e = some cl → classify rp0 e = none → Elig h head e →
     (∃ b ∈ st.rp.builds, CurB st.rp b.iid ∧ ∃ rc, st.rp.rcs[b.iid]? = some rc ∧ rc.commit = e) ∨
-    SkipRec h pl st.rp.rcs (fun b => b ∈ st.rp.builds ∧ CurB st.rp b.iid) e
+    SkipRec h pl L st.rp.rcs (fun b => b ∈ st.rp.builds ∧ CurB st.rp b.iid) e
 
-theorem finish_skipInv (hT : h.Topo) {pl : Plug π β} {head : Nat} {st st' : St β} {c : Nat} {cm : Commit π}
-    {fr : List Nat} {rp0 : Repo β} (w : WF h st) (sm : Sem h st.rp) (v : VInv st) (ok : SkipInv h pl rp0 head st)
+theorem finish_skipInv (hT : h.Topo) {pl : Plug π β} {L : List Nat → Prop} {head : Nat} {st st' : St β} {c : Nat} {cm : Commit π}
+    {fr : List Nat} {rp0 : Repo β} (w : WF h st) (sm : Sem h st.rp) (v : VInv st) (ok : SkipInv h pl L rp0 head st)
     (hcl : classify st.rp c = none) (hcm : h.commits[c]? = some cm) (hQ : FrontQ h st cm.parents.reverse fr)
-    (hf : finish pl head st c cm fr = .ok st') : SkipInv h pl rp0 head st' := by
+    {rel : List Nat} (hL : L rel) (hf : finish pl head rel st c cm fr = .ok st') : SkipInv h pl L rp0 head st' := by
   obtain ⟨rp, br⟩ := st
   have hpre := finish_prefix hf
   have hmatch := Hist.isMatch_of_get hcm
@@ -39,8 +40,8 @@ theorem finish_skipInv (hT : h.Topo) {pl : Plug π β} {head : Nat} {st st' : St
       (∀ b ∈ st'.rp.builds, CurB st'.rp b.iid → b ∈ rp.builds ∧ CurB rp b.iid ∨
         ∃ rc, st'.rp.rcs[b.iid]? = some rc ∧ rc.commit = c) →
       (Elig h head c → (∃ b ∈ st'.rp.builds, CurB st'.rp b.iid ∧ ∃ rc, st'.rp.rcs[b.iid]? = some rc ∧ rc.commit = c) ∨
-        SkipRec h pl st'.rp.rcs (fun b => b ∈ st'.rp.builds ∧ CurB st'.rp b.iid) c) →
-      SkipInv h pl rp0 head st' := by
+        SkipRec h pl L st'.rp.rcs (fun b => b ∈ st'.rp.builds ∧ CurB st'.rp b.iid) c) →
+      SkipInv h pl L rp0 head st' := by
     intro hsub hcur hnewb hnew e cl he h0 hel
     by_cases hec : e = c
     · subst hec; exact hnew hel
@@ -49,7 +50,7 @@ theorem finish_skipInv (hT : h.Topo) {pl : Plug π β} {head : Nat} {st st' : St
       · exact Or.inl ⟨b, hsub b hb, hcur _ hcb, rc, getElem?_prefix hpre hrc, hce⟩
       · right
         refine ⟨hm, ?_⟩
-        rcases hs with ⟨hs, hnb⟩ | ⟨cm', pbs, bumps, h1, h2, h3, h4, h5, h6⟩
+        rcases hs with ⟨hs, hnb⟩ | ⟨cm', pbs, bumps, rel', hl', h1, h2, h3, h4, h5, h6⟩
         · left
           refine ⟨hs, ?_⟩
           intro bq ⟨hbq, hcq⟩ rcq hrcq hne hanc
@@ -62,7 +63,7 @@ theorem finish_skipInv (hT : h.Topo) {pl : Plug π β} {head : Nat} {st st' : St
             obtain ⟨cl', hcl'⟩ := sm.anc_classified he hanc
             rw [hcl] at hcl'; cases hcl'
         · right
-          refine ⟨cm', pbs, bumps, h1, h2, ?_, ?_, h5, h6⟩
+          refine ⟨cm', pbs, bumps, rel', hl', h1, h2, ?_, ?_, h5, h6⟩
           · intro pb hpb
             obtain ⟨⟨h7, h8⟩, rcp, h9, h10⟩ := h3 pb hpb
             exact ⟨⟨hsub pb h7, hcur _ h8⟩, rcp, getElem?_prefix hpre h9, h10⟩
@@ -86,7 +87,7 @@ theorem finish_skipInv (hT : h.Topo) {pl : Plug π β} {head : Nat} {st st' : St
   cases finish_cases hf with
   | irrelevant hm hrel hfr0 =>
     refine hold (fun b hb => hb) (fun i hi => hi) (fun b hb hc => Or.inl ⟨hb, hc⟩)
-      (fun _ => Or.inr ⟨by rw [hmatch]; exact hm, Or.inl ⟨hrel, ?_⟩⟩)
+      (fun _ => Or.inr ⟨by rw [hmatch]; exact hm, Or.inl ⟨by rw [← hrel]; exact hL, ?_⟩⟩)
     intro bq ⟨hbq, _⟩ rcq hrcq hne hanc
     have hrcq' : rp.rcs[bq.iid]? = some rcq := hrcq
     rcases hanc.cases_parent with h1 | ⟨cm', p, hcm', hp, hyp⟩
@@ -115,7 +116,7 @@ theorem finish_skipInv (hT : h.Topo) {pl : Plug π β} {head : Nat} {st st' : St
         by simp only [St.skipBuild, CurB, hcur] at hc; exact hc⟩) ?_
     intro _
     right
-    refine ⟨by rw [hmatch]; exact hm, Or.inr ⟨cm, pbs, bumps, hcm, ?_, ?_, ?_, hmk, hnt⟩⟩
+    refine ⟨by rw [hmatch]; exact hm, Or.inr ⟨cm, pbs, bumps, rel, hL, hcm, ?_, ?_, ?_, hmk, hnt⟩⟩
     · rw [buildsOf_length hpbs]; exact hpb
     all_goals
       have hlt : ∀ x, CurB rp x → x < rp.rcs.length := by
@@ -161,7 +162,7 @@ theorem finish_skipInv (hT : h.Topo) {pl : Plug π β} {head : Nat} {st st' : St
         exact (rreach_iff_anc w sm hrcq (List.getElem?_eq_getElem hlx)).mp hqm
   | build bpar new pb pbs bumps bn na =>
     have hnp : rp.rcs.length ∉ rp.prevBuilds := fun hm' => by have := w.prevLt _ hm'; simp only at this; omega
-    let rc : RC := { commit := c, parents := fr, explicit := cm.isMatch, bns := buildNums cm (c == head) }
+    let rc : RC := { commit := c, parents := fr, explicit := cm.isMatch, bns := buildNums cm (c == head), time := cm.time }
     let b : RB β := { iid := rp.rcs.length, rcommit := some rp.rcs.length, parents := pb,
                       rcommits := new ++ [rp.rcs.length], bumps := bumps, bn := bn }
     have hcur1 : ∀ i, isCurBuild (St.addBuild ⟨rp, br⟩ rc bn bpar new pb bumps na).rp i =
@@ -191,41 +192,43 @@ theorem finish_skipInv (hT : h.Topo) {pl : Plug π β} {head : Nat} {st st' : St
         rw [hcur1]; simp [b]
       · simp [St.addBuild, Repo.addRC, b, rc]
 
-theorem skip_hyps (hT : h.Topo) (pl : Plug π β) (head : Nat) (rp0 : Repo β) :
-    VisitHyps h pl head (fun s => ((WF h s ∧ Sem h s.rp) ∧ VInv s) ∧ SkipInv h pl rp0 head s) (FrontQ h)
-      (fun s s' => Grow s.rp s'.rp) (fun _ => True) where
+theorem skip_hyps (hT : h.Topo) (pl : Plug π β) {L : List Nat → Prop} (hR : RelInv h pl L) (head : Nat)
+    (rp0 : Repo β) :
+    VisitHypsL h pl head (fun s => ((WF h s ∧ Sem h s.rp) ∧ VInv s) ∧ SkipInv h pl L rp0 head s) (FrontQ h)
+      (fun s s' => Grow s.rp s'.rp) (fun _ => True) L where
   Rrefl := fun s => Grow.refl s.rp
   Rtrans := fun h1 h2 => h1.trans h2
   Qmono := fun hP hP' hR hQ => (sem_hyps h pl head).Qmono hP.1.1 hP'.1.1 hR hQ
   Qnil := fun s hP => (sem_hyps h pl head).Qnil s hP.1.1
   Qcls := fun hP hQ _ hc => (sem_hyps h pl head).Qcls hP.1.1 hQ trivial hc
   Vstep := fun _ _ _ => trivial
+  Lstep := fun hl _ hcm => hR.step _ _ _ hl hcm
   Hfin := by
-    intro s c cm fr s' hP _ hcl hcm hQ hf
+    intro rel s c cm fr s' hl hP _ hcl hcm hQ hf
     obtain ⟨⟨w', sm'⟩, g⟩ := (sem_hyps h pl head).Hfin hP.1.1 trivial hcl hcm hQ hf
     exact ⟨⟨⟨⟨w', sm'⟩, finish_vinv hP.1.1.1 w' hP.1.2 hQ.lt hf⟩,
-      finish_skipInv hT hP.1.1.1 hP.1.1.2 hP.1.2 hP.2 hcl hcm hQ hf⟩, g⟩
+      finish_skipInv hT hP.1.1.1 hP.1.1.2 hP.1.2 hP.2 hcl hcm hQ hl hf⟩, g⟩
 
-theorem SkipRec.congr {pl : Plug π β} {rcs : List RC} {P Q : RB β → Prop} (hPQ : ∀ b, P b ↔ Q b) {e : Nat}
-    (hs : SkipRec h pl rcs P e) : SkipRec h pl rcs Q e := by
+theorem SkipRec.congr {pl : Plug π β} {L : List Nat → Prop} {rcs : List RC} {P Q : RB β → Prop} (hPQ : ∀ b, P b ↔ Q b) {e : Nat}
+    (hs : SkipRec h pl L rcs P e) : SkipRec h pl L rcs Q e := by
   obtain ⟨h1, h2⟩ := hs
   refine ⟨h1, ?_⟩
-  rcases h2 with ⟨h2, hnb⟩ | ⟨cm, pbs, bumps, h3, h4, h5, h6, h7, h8⟩
+  rcases h2 with ⟨h2, hnb⟩ | ⟨cm, pbs, bumps, rel, hl, h3, h4, h5, h6, h7, h8⟩
   · exact Or.inl ⟨h2, fun bq hbq => hnb bq ((hPQ bq).mpr hbq)⟩
-  · exact Or.inr ⟨cm, pbs, bumps, h3, h4, fun pb hpb => ⟨(hPQ pb).mp (h5 pb hpb).1, (h5 pb hpb).2⟩,
+  · exact Or.inr ⟨cm, pbs, bumps, rel, hl, h3, h4, fun pb hpb => ⟨(hPQ pb).mp (h5 pb hpb).1, (h5 pb hpb).2⟩,
       fun bq hbq => h6 bq ((hPQ bq).mpr hbq), h7, h8⟩
 
-theorem SkipRec.ext {pl : Plug π β} {rcs : List RC} {P : RB β → Prop} (hlt : ∀ b, P b → b.iid < rcs.length)
-    (ext : List RC) {e : Nat} (hs : SkipRec h pl rcs P e) : SkipRec h pl (rcs ++ ext) P e := by
+theorem SkipRec.ext {pl : Plug π β} {L : List Nat → Prop} {rcs : List RC} {P : RB β → Prop} (hlt : ∀ b, P b → b.iid < rcs.length)
+    (ext : List RC) {e : Nat} (hs : SkipRec h pl L rcs P e) : SkipRec h pl L (rcs ++ ext) P e := by
   obtain ⟨h1, h2⟩ := hs
   refine ⟨h1, ?_⟩
-  rcases h2 with ⟨h2, hnb⟩ | ⟨cm, pbs, bumps, h3, h4, h5, h6, h7, h8⟩
+  rcases h2 with ⟨h2, hnb⟩ | ⟨cm, pbs, bumps, rel, hl, h3, h4, h5, h6, h7, h8⟩
   · left
     refine ⟨h2, ?_⟩
     intro bq hbq rcq hrcq hne hanc
     rw [List.getElem?_append_left (hlt bq hbq)] at hrcq
     exact hnb bq hbq rcq hrcq hne hanc
-  · refine Or.inr ⟨cm, pbs, bumps, h3, h4, ?_, ?_, h7, h8⟩
+  · refine Or.inr ⟨cm, pbs, bumps, rel, hl, h3, h4, ?_, ?_, h7, h8⟩
     · intro pb hpb
       obtain ⟨h9, rcp, h10, h11⟩ := h5 pb hpb
       exact ⟨h9, rcp, by rw [List.getElem?_append_left (hlt pb h9)]; exact h10, h11⟩
@@ -236,22 +239,22 @@ theorem SkipRec.ext {pl : Plug π β} {rcs : List RC} {P : RB β → Prop} (hlt 
 
 /-- per branch: an eligible commit of the branch is one of its builds, or it was skipped with trivial bumps relative
 to the nearest build of the branch below it -/
-def BrSkip (h : Hist π) (pl : Plug π β) (pre : List Branch) (b : Branch) (rcs : List RC) (rb : RBranch β) : Prop :=
+def BrSkip (h : Hist π) (pl : Plug π β) (L : List Nat → Prop) (pre : List Branch) (b : Branch) (rcs : List RC) (rb : RBranch β) : Prop :=
   ∀ e, SpecBuild h pre b e → (∃ bd ∈ rb.rbuilds, BuildAt rcs bd e) ∨
-    SkipRec h pl rcs (fun bx => bx ∈ rb.rbuilds ∧ bx.rcommit = some bx.iid) e
+    SkipRec h pl L rcs (fun bx => bx ∈ rb.rbuilds ∧ bx.rcommit = some bx.iid) e
 
-theorem readBranch_skip (hT : h.Topo) {pl : Plug π β} {pre : List Branch} {rp0 : Repo β} {b : Branch}
+theorem readBranch_skip (hT : h.Topo) {pl : Plug π β} {L : List Nat → Prop} (hR : RelInv h pl L) {pre : List Branch} {rp0 : Repo β} {b : Branch}
     {rp' : Repo β} {rb : RBranch β} (inv : RepoInv h pre rp0)
-    (hr : readBranch h pl pre.isEmpty rp0 b = .ok (rp', rb)) : BrSkip h pl pre b rp'.rcs rb := by
+    (hr : readBranch h pl pre.isEmpty rp0 b = .ok (rp', rb)) : BrSkip h pl L pre b rp'.rcs rb := by
   obtain ⟨inv', _, _⟩ := readBranch_sem hT inv hr
-  obtain ⟨st, rheads, hv, he⟩ := readBranch_inv hr
-  have H := skip_hyps (h := h) hT pl b.head rp0
-  have ok0 : SkipInv h pl rp0 b.head ⟨rp0, Br.empty⟩ := by
+  obtain ⟨hc0, st, rheads, hhc0, hv, he⟩ := readBranch_inv hr
+  have H := skip_hyps (h := h) hT pl hR b.head rp0
+  have ok0 : SkipInv h pl L rp0 b.head ⟨rp0, Br.empty⟩ := by
     intro e cl h1 h2; simp only at h1; rw [h2] at h1; cases h1
   have hP0 : ((WF h (⟨rp0, Br.empty⟩ : St β) ∧ Sem h rp0) ∧ VInv (⟨rp0, Br.empty⟩ : St β)) ∧
-      SkipInv h pl rp0 b.head ⟨rp0, Br.empty⟩ := ⟨⟨⟨inv.wf, inv.sem⟩, vinv_init inv.wf⟩, ok0⟩
-  obtain ⟨⟨⟨⟨w, _⟩, _⟩, ok⟩, _, _⟩ := visit_ind hT H h.commits.length ⟨rp0, Br.empty⟩ [] [] b.head st rheads hP0
-    (H.Qnil _ hP0) trivial hv
+      SkipInv h pl L rp0 b.head ⟨rp0, Br.empty⟩ := ⟨⟨⟨inv.wf, inv.sem⟩, vinv_init inv.wf⟩, ok0⟩
+  obtain ⟨⟨⟨⟨w, _⟩, _⟩, ok⟩, _, _⟩ := visit_indL hT H h.commits.length ⟨rp0, Br.empty⟩ [] [] b.head st rheads
+    (hR.init _ _ hhc0) hP0 (H.Qnil _ hP0) trivial hv
   have hn := visit_buildsNormal hT inv.normal hv
   have hs := endBranch_spec he
   obtain ⟨seen, curBuilds, _, hcb, hrbuilds, _⟩ := hs.seen
@@ -293,10 +296,10 @@ theorem readBranch_skip (hT : h.Topo) {pl : Plug π β} {pre : List Branch} {rp0
   · right
     exact hsk.congr hiff
 
-theorem rgraph_skip (hT : h.Topo) {pl : Plug π β} {g : Graph β} (hg : rgraph h pl = .ok g) :
+theorem rgraph_skip (hT : h.Topo) {pl : Plug π β} {L : List Nat → Prop} (hR : RelInv h pl L) {g : Graph β} {mt : Option Nat} (hg : rgraphNW h pl mt = .ok g) :
     ∀ j b rb, (branchesOf h)[j]? = some b → g.all[j]? = some rb →
-      BrSkip h pl ((branchesOf h).take j) b g.rcs rb := by
-  unfold rgraph at hg
+      BrSkip h pl L ((branchesOf h).take j) b g.rcs rb := by
+  unfold rgraphNW at hg
   split at hg
   · cases hg
   · rename_i rp rbs hr
@@ -304,13 +307,13 @@ theorem rgraph_skip (hT : h.Topo) {pl : Plug π β} {g : Graph β} (hg : rgraph 
     have hstep : ∀ (pre : List Branch) (rp : Repo β) (b : Branch) (rp' : Repo β) (rb : RBranch β),
         RepoInv h pre rp → readBranch h pl pre.isEmpty rp b = .ok (rp', rb) →
         RepoInv h (pre ++ [b]) rp' ∧
-          (BrSkip h pl pre b rp'.rcs rb ∧ ∀ bd ∈ rb.rbuilds, bd.rcommit.isSome = true → bd.iid < rp'.rcs.length) ∧
+          (BrSkip h pl L pre b rp'.rcs rb ∧ ∀ bd ∈ rb.rbuilds, bd.rcommit.isSome = true → bd.iid < rp'.rcs.length) ∧
           ∃ ext, rp'.rcs = rp.rcs ++ ext := by
       intro pre rp b rp' rb inv hrb
       obtain ⟨h1, h2, h3⟩ := readBranch_sem hT inv hrb
-      exact ⟨h1, ⟨readBranch_skip hT inv hrb, fun bd hbd hs => (h2.bound bd hbd).2 hs⟩, h3⟩
+      exact ⟨h1, ⟨readBranch_skip hT hR inv hrb, fun bd hbd hs => (h2.bound bd hbd).2 hs⟩, h3⟩
     obtain ⟨_, _, hlen, hF⟩ := readBranches_ind2 (RepoInv h)
-      (fun pre b rp' rb => BrSkip h pl pre b rp'.rcs rb ∧
+      (fun pre b rp' rb => BrSkip h pl L pre b rp'.rcs rb ∧
         ∀ bd ∈ rb.rbuilds, bd.rcommit.isSome = true → bd.iid < rp'.rcs.length)
       (fun rp rp' => ∃ ext, rp'.rcs = rp.rcs ++ ext) (fun rp => ⟨[], by simp⟩)
       (by
